@@ -1,7 +1,9 @@
 """C17 - Multi-value mappings stay consistent under any operation sequence."""
 from __future__ import annotations
 
+import collections
 import itertools
+import types
 
 from hypothesis import strategies as st
 
@@ -19,14 +21,91 @@ RULES = {
     "long": "Hypothesis: sequences up to 50 operations over 4 keys / 4 values; same non-trivial rule",
     "query": "Hypothesis: QueryParams / FormData built from arbitrary text pairs expose the list-of-pairs views; "
     "QueryParams(str(q)) == q and has the same multi_items; non-trivial = a repeated key or a character that needs percent-encoding",
+    "alph": "exhaustive: every operation sequence of length <= 2 (the ~40 operations of `exh` plus pop(k, None), setdefault(k), "
+    "update(dict, **kw), update(iterator), update(self), update(), update(other=..), setlist(tuple)) over 10 two-key / two-value "
+    "alphabets - keys that are equal to but never the same object as the stored key (strings built at run time, large ints), "
+    "1 / 1.0, '' / None, tuples; values None, 0, '', False, lists, dicts (unhashable), identity-only objects, 1 / '1' (unorderable) - "
+    "length <= 1 from every initial pair list of length <= 2 and nine of length 3 (thorough: every list of length <= 3), length 2 "
+    "from one initial list for six of the alphabets (thorough: five lists, every alphabet), in 10 constructor forms "
+    "(adds MappingProxyType, UserDict, QueryParams, FormData, MutableMultiMapping sources; every source is looked at again "
+    "at the end and must be as it was); same non-trivial rule",
+    "deep": "exhaustive: every initial pair list over keys {a,b} of length 3..5 (6 in thorough; values all different, or all equal) "
+    "x every single operation (thorough: every pair of operations for length 3): keys with 3+ values that are not adjacent; "
+    "same non-trivial rule",
+    "qexh": "exhaustive: the `query` oracle on every single code point U+0000..U+017F and a few beyond as key / value / both, every "
+    "pair over 18 special strings, every list of <= 2 pairs over 6 of them, every list of 3 pairs over {'', 'a'}; plus identity-only "
+    "objects (upload files) as form values; same non-trivial rule as `query`",
+    "qbulk": "fixed: query / form / plain mappings of 1001 and 2000 (thorough: up to 5000) pairs (all keys different, 7 keys, one key): views at sampled keys, "
+    "QueryParams(str(q)) has the same item list and equals q; non-trivial always",
+    "qraw": "fixed list + Hypothesis: a query mapping born from an arbitrary raw query string (blank segments, bare keys, stray "
+    "'=', '%', ';', '#', '+', broken escapes, 8-bit text): its views agree with its own item list, and parsed from its own string "
+    "form it has the same item list and equals itself (also through the bytes form); non-trivial = the string is not its own canonical form",
 }
 ASSUMPTIONS = [
     "popitem may remove any present key (returns it with its last value)",
     "update(mapping) assigns, per distinct key of the argument in first-occurrence order, the argument's value for it "
     "(last value for a multi-mapping argument), as collections.abc.MutableMapping.update does",
+    "update(mapping, **kw) assigns the keyword arguments after the mapping's keys; update(self) assigns every key its own last value",
+    "setdefault(k) without a default stores None, pop(k, None) of an absent key returns None (collections.abc.MutableMapping)",
+    "any hashable object is a legitimate key and any object a legitimate value (the classes are generic); keys are compared with ==",
+    "equality is only ever demanded between mappings holding the same pair list, and refused only for a mapping with one extra key",
 ]
 
 _MISSING = "<missing>"
+
+
+
+# ------------------------------------------------------------------------------------------
+# case data -> keys and values
+#
+# Cases are plain JSON-able data.  A key spec is a str / int / float / bool / None, or a list (-> tuple key).
+# A value spec is any JSON value; a list or dict stays a list / dict (an unhashable, unorderable value), and
+# {"$obj": n} stands for the n-th of a few module-level objects that have identity equality only (what an
+# upload file is to a form mapping).  `dk` builds a NEW key object on every call wherever Python allows it
+# (strings of >= 2 characters, ints outside the small-int cache, floats, tuples), so the key handed to an
+# operation or a lookup is equal to, but not the same object as, the key stored earlier - the situation of
+# every real caller (a key parsed from a request vs. a literal in the application).
+
+
+class _Opaque:
+    __slots__ = ("n",)
+
+    def __init__(self, n):
+        self.n = n
+
+    def __repr__(self):
+        return f"<obj{self.n}>"
+
+
+_OBJS = [_Opaque(i) for i in range(4)]
+
+
+def dk(k):
+    if isinstance(k, (list, tuple)):
+        return tuple(dk(x) for x in k)
+    if isinstance(k, str):
+        return "".join(list(k)) if len(k) > 1 else k
+    if k is None or isinstance(k, bool):
+        return k
+    if isinstance(k, int):
+        return int(str(k))
+    if isinstance(k, float):
+        return float(repr(k))
+    raise core.HarnessError(f"key spec {k!r}")
+
+
+def dv(v):
+    if isinstance(v, dict):
+        if set(v) == {"$obj"}:
+            return _OBJS[v["$obj"]]
+        return {kk: dv(x) for kk, x in v.items()}
+    if isinstance(v, (list, tuple)):
+        return [dv(x) for x in v]
+    return v
+
+
+def dpairs(pairs):
+    return [(dk(p[0]), dv(p[1])) for p in pairs]
 
 
 # ------------------------------------------------------------------------------------------
@@ -58,24 +137,16 @@ def m_keys(model):
     return out
 
 
-def build(form, pairs):
-    """-> (real mapping, model list)"""
-    pairs = [tuple(p) for p in pairs]
-    if form == "none":
-        return MutableMultiMapping(), []
-    if form == "pairs":
-        src = list(pairs)
-        m = MutableMultiMapping(src)
-        src.append(("zz", 99))  # the constructor must have copied
-        return m, list(pairs)
-    if form == "iter":
-        return MutableMultiMapping(iter(pairs)), list(pairs)
-    if form == "dict":
-        d = dict(pairs)
-        return MutableMultiMapping(d), list(d.items())
-    if form == "multi":
-        return MutableMultiMapping(MultiMapping(pairs)), list(pairs)
-    raise core.HarnessError(form)
+def _same_multiset(xs, ys):
+    ys = list(ys)
+    for x in xs:
+        for i, y in enumerate(ys):
+            if x is y or x == y:
+                del ys[i]
+                break
+        else:
+            return False
+    return not ys
 
 
 def call(fn):
@@ -83,25 +154,38 @@ def call(fn):
         return ("ok", fn())
     except KeyError:
         return ("KeyError", None)
+    except TypeError as exc:
+        # A call the mapping's signature does not even accept (say a keyword argument of update() that collides with
+        # a parameter name) is refused by the interpreter before any baize frame exists; that is an outcome of the
+        # operation under test, not a defect of the harness.  Anything raised deeper is left to core.guarded.
+        tb = exc.__traceback__
+        if tb is not None and tb.tb_next is not None and tb.tb_next.tb_next is None:
+            return ("TypeError", str(exc))
+        raise
 
 
-def views_problems(m, model, keys):
+def ro_views_problems(m, model, keys):
+    """The read-only views of any multi mapping against a list of pairs (keys = key specs to probe)."""
     probs = []
     if m.multi_items() != model:
         probs.append(("multi_items", f"{m.multi_items()!r} != {model!r}"))
     distinct = m_keys(model)
-    for k in keys:
+    for spec in keys:
+        k = dk(spec)
         vals = m_values(model, k)
-        if m.getlist(k) != vals:
-            probs.append(("getlist", f"getlist({k!r}) = {m.getlist(k)!r}, model {vals!r}"))
-        got = call(lambda: m[k])
+        got = m.getlist(dk(spec))
+        if got != vals:
+            probs.append(("getlist", f"getlist({k!r}) = {got!r}, model {vals!r}"))
+        got = call(lambda: m[dk(spec)])
         want = ("ok", vals[-1]) if vals else ("KeyError", None)
         if got != want:
             probs.append(("getitem", f"m[{k!r}] -> {got!r}, model {want!r}"))
-        if (k in m) != bool(vals):
-            probs.append(("contains", f"{k!r} in m = {k in m}, model {bool(vals)}"))
-        if m.get(k, _MISSING) != (vals[-1] if vals else _MISSING):
-            probs.append(("get", f"get({k!r}) = {m.get(k, _MISSING)!r}"))
+        if (dk(spec) in m) != bool(vals):
+            probs.append(("contains", f"{k!r} in m = {dk(spec) in m}, model {bool(vals)}"))
+        if m.get(dk(spec), _MISSING) != (vals[-1] if vals else _MISSING):
+            probs.append(("get", f"get({k!r}, default) = {m.get(k, _MISSING)!r}, values {vals!r}"))
+        if m.get(dk(spec)) != (vals[-1] if vals else None):
+            probs.append(("get", f"get({k!r}) = {m.get(k)!r}, values {vals!r}"))
     ks = list(m.keys())
     if len(ks) != len(set(ks)) or set(ks) != set(distinct):
         probs.append(("keys", f"keys() = {ks!r}, model distinct keys {distinct!r}"))
@@ -109,12 +193,17 @@ def views_problems(m, model, keys):
         probs.append(("keys", f"iter() {list(iter(m))!r} != keys() {ks!r}"))
     if len(m) != len(distinct):
         probs.append(("len", f"len = {len(m)}, model {len(distinct)}"))
-    if dict(m.items()) != {k: m_values(model, k)[-1] for k in distinct}:
+    if dict(m.items()) != {k: m_values(model, k)[-1] for k in distinct} or len(list(m.items())) != len(distinct):
         probs.append(("items", f"items() = {list(m.items())!r}"))
-    if sorted(map(repr, m.values())) != sorted(repr(m_values(model, k)[-1]) for k in distinct):
+    if not _same_multiset(list(m.values()), [m_values(model, k)[-1] for k in distinct]):
         probs.append(("values", f"values() = {list(m.values())!r}"))
+    return probs
+
+
+def views_problems(m, model, keys):
+    probs = ro_views_problems(m, model, keys)
     fresh = MutableMultiMapping(list(model))
-    if not (m == fresh) or not (fresh == m):
+    if not (m == fresh) or not (fresh == m) or (m != fresh):
         probs.append(("eq", f"mapping != fresh mapping built from {model!r}"))
     other = MutableMultiMapping(list(model) + [("__extra__", 0)])
     if m == other:
@@ -122,50 +211,96 @@ def views_problems(m, model, keys):
     return probs
 
 
+_RO_SOURCES = {"multi": MultiMapping, "qp": QueryParams, "fd": FormData, "mut": MutableMultiMapping}
+_MAP_SOURCES = {
+    "dict": lambda d: d,
+    "mapping": types.MappingProxyType,
+    "userdict": collections.UserDict,
+}
+FORMS = ["pairs", "multi", "dict", "iter", "qp", "fd", "mut", "mapping", "userdict"]
+
+
+def build(form, pairs, keys=()):
+    """-> (real mapping, model list, after) - after() lists what is wrong with the object the mapping was built
+    from once the operations have run on the mapping: the constructor must have copied."""
+    pairs = dpairs(pairs)
+    if form == "none":
+        return MutableMultiMapping(), [], lambda: []
+    if form == "pairs":
+        src = list(pairs)
+        m = MutableMultiMapping(src)
+        src.append(("zz", 99))  # the constructor must have copied
+        return m, list(pairs), lambda: [] if src == list(pairs) + [("zz", 99)] else [("source", f"the caller's list is now {src!r}")]
+    if form == "iter":
+        return MutableMultiMapping(iter(pairs)), list(pairs), lambda: []
+    if form in _MAP_SOURCES:
+        d = dict(pairs)
+        want = list(d.items())
+        src = _MAP_SOURCES[form](d)
+        m = MutableMultiMapping(src)
+        (src if form == "userdict" else d)["zz"] = 99  # the constructor must have copied (a UserDict has its own dict)
+
+        def after_map():
+            now = list(src.items())
+            return [] if now == want + [("zz", 99)] else [("source", f"the caller's mapping is now {now!r}, was {want!r} + zz")]
+
+        return m, list(want), after_map
+    if form in _RO_SOURCES:
+        src = _RO_SOURCES[form](list(pairs))
+        m = MutableMultiMapping(src)
+
+        def after_ro():
+            return [("source:" + k, f"the {form} source changed: {p}") for k, p in ro_views_problems(src, list(pairs), keys)]
+
+        return m, list(pairs), after_ro
+    raise core.HarnessError(form)
+
+
 def apply_op(m, model, op):
     """Apply op to both; return (name, real outcome, model outcome)."""
     name = op[0]
     if name == "set":
-        _, k, v = op
-        real = call(lambda: m.__setitem__(k, v))
-        m_assign(model, k, v)
+        k, v = op[1], dv(op[2])
+        real = call(lambda: m.__setitem__(dk(k), v))
+        m_assign(model, dk(k), v)
         return name, real, ("ok", None)
     if name == "del":
-        _, k = op
+        k = dk(op[1])
         want = ("ok", None) if m_values(model, k) else ("KeyError", None)
-        real = call(lambda: m.__delitem__(k))
+        real = call(lambda: m.__delitem__(dk(op[1])))
         m_remove(model, k)
         return name, real, want
     if name == "append":
-        _, k, v = op
-        real = call(lambda: m.append(k, v))
-        model.append((k, v))
+        k, v = op[1], dv(op[2])
+        real = call(lambda: m.append(dk(k), v))
+        model.append((dk(k), v))
         return name, real, ("ok", None)
     if name == "setlist":
-        _, k, vals = op
-        vals = list(vals)
-        real = call(lambda: m.setlist(k, vals))
+        k = dk(op[1])
+        vals = [dv(v) for v in op[2]]
+        arg = tuple(vals) if len(op) > 3 and op[3] == "tuple" else list(vals)
+        real = call(lambda: m.setlist(dk(op[1]), arg))
         m_remove(model, k)
         model.extend((k, v) for v in vals)
         return name, real, ("ok", None)
     if name == "poplist":
-        _, k = op
+        k = dk(op[1])
         want = ("ok", m_values(model, k))
-        real = call(lambda: m.poplist(k))
+        real = call(lambda: m.poplist(dk(op[1])))
         m_remove(model, k)
         return name, real, want
-    if name == "pop":
-        _, k = op
+    if name in ("pop", "popd", "popn"):
+        k = dk(op[1])
         vals = m_values(model, k)
-        want = ("ok", vals[-1]) if vals else ("KeyError", None)
-        real = call(lambda: m.pop(k))
-        m_remove(model, k)
-        return name, real, want
-    if name == "popd":
-        _, k = op
-        vals = m_values(model, k)
-        want = ("ok", vals[-1] if vals else "dflt")
-        real = call(lambda: m.pop(k, "dflt"))
+        if name == "pop":
+            want = ("ok", vals[-1]) if vals else ("KeyError", None)
+            real = call(lambda: m.pop(dk(op[1])))
+        elif name == "popd":
+            want = ("ok", vals[-1] if vals else "dflt")
+            real = call(lambda: m.pop(dk(op[1]), "dflt"))
+        else:
+            want = ("ok", vals[-1] if vals else None)
+            real = call(lambda: m.pop(dk(op[1]), None))
         m_remove(model, k)
         return name, real, want
     if name == "popitem":
@@ -179,40 +314,59 @@ def apply_op(m, model, op):
             return name, real, want
         return name, real, ("ok", "<some present key with its last value>")
     if name == "setdefault":
-        _, k, v = op
+        k, v = dk(op[1]), dv(op[2])
         vals = m_values(model, k)
         want = ("ok", vals[-1] if vals else v)
-        real = call(lambda: m.setdefault(k, v))
+        real = call(lambda: m.setdefault(dk(op[1]), v))
         if not vals:
             model.append((k, v))
         return name, real, want
+    if name == "setdefault0":  # no default given: None is stored
+        k = dk(op[1])
+        vals = m_values(model, k)
+        want = ("ok", vals[-1] if vals else None)
+        real = call(lambda: m.setdefault(dk(op[1])))
+        if not vals:
+            model.append((k, None))
+        return name, real, want
     if name == "update_dict":
-        _, pairs = op
-        d = dict(tuple(p) for p in pairs)
+        d = dict(dpairs(op[1]))
         real = call(lambda: m.update(d))
         for k, v in d.items():
             m_assign(model, k, v)
         return name, real, ("ok", None)
-    if name == "update_pairs":
-        _, pairs = op
-        pairs = [tuple(p) for p in pairs]
-        real = call(lambda: m.update(pairs))
+    if name == "update_dict_kw":  # update(mapping, **kw): the mapping's keys first, then the keyword arguments
+        d = dict(dpairs(op[1]))
+        kw = {str(k): v for k, v in dpairs(op[2])}
+        real = call(lambda: m.update(d, **kw))
+        for k, v in list(d.items()) + list(kw.items()):
+            m_assign(model, k, v)
+        return name, real, ("ok", None)
+    if name in ("update_pairs", "update_iter"):
+        pairs = dpairs(op[1])
+        real = call(lambda: m.update(iter(list(pairs)) if name == "update_iter" else list(pairs)))
         for k, v in pairs:
             m_assign(model, k, v)
         return name, real, ("ok", None)
     if name == "update_kw":
-        _, pairs = op
-        d = {str(k): v for k, v in pairs}
+        d = {str(k): v for k, v in dpairs(op[1])}
         real = call(lambda: m.update(**d))
         for k, v in d.items():
             m_assign(model, k, v)
         return name, real, ("ok", None)
     if name == "update_multi":
-        _, pairs = op
-        pairs = [tuple(p) for p in pairs]
-        real = call(lambda: m.update(MultiMapping(pairs)))
+        pairs = dpairs(op[1])
+        real = call(lambda: m.update(MultiMapping(list(pairs))))
         for k in m_keys(pairs):
             m_assign(model, k, m_values(pairs, k)[-1])
+        return name, real, ("ok", None)
+    if name == "update_self":
+        real = call(lambda: m.update(m))
+        for k in m_keys(model):
+            m_assign(model, k, m_values(model, k)[-1])
+        return name, real, ("ok", None)
+    if name == "update_none":
+        real = call(lambda: m.update())
         return name, real, ("ok", None)
     if name == "clear":
         real = call(lambda: m.clear())
@@ -223,24 +377,28 @@ def apply_op(m, model, op):
         v.append(("view", 0))
         if v:
             v.pop(0)
-        g = m.getlist(op[1])
+        g = m.getlist(dk(op[1]))
         g.append(77)
         return name, ("ok", None), ("ok", None)
     raise core.HarnessError(f"unknown op {op!r}")
 
 
 def _touched_key(op):
-    if op[0] in ("set", "del", "append", "setlist", "poplist", "pop", "popd", "setdefault", "mutate_view"):
-        return {op[1]}
-    if op[0] in ("update_dict", "update_pairs", "update_multi", "update_kw"):
-        return {str(p[0]) if op[0] == "update_kw" else p[0] for p in op[1]}
-    return None  # popitem / clear / snapshot: touches everything
+    if op[0] in ("set", "del", "append", "setlist", "poplist", "pop", "popd", "popn", "setdefault", "setdefault0", "mutate_view"):
+        return {dk(op[1])}
+    if op[0] in ("update_dict", "update_pairs", "update_iter", "update_multi"):
+        return {dk(p[0]) for p in op[1]}
+    if op[0] == "update_kw":
+        return {str(dk(p[0])) for p in op[1]}
+    if op[0] == "update_dict_kw":
+        return {dk(p[0]) for p in op[1]} | {str(dk(p[0])) for p in op[2]}
+    return None  # popitem / clear / snapshot / update_self: touches everything
 
 
 def oracle(case) -> Result:
     r = Result()
     form, init, ops, keys = case["form"], case["init"], case["ops"], case["keys"]
-    m, model = build(form, init)
+    m, model, after = build(form, init, keys)
     snapshots = []
     multi_seen = False
     for k, p in views_problems(m, model, keys):
@@ -265,6 +423,22 @@ def oracle(case) -> Result:
     for snap, smodel in snapshots:
         if snap.multi_items() != smodel:
             r.fail("C17:snapshot-aliasing", f"copy taken earlier changed: {snap.multi_items()!r} != {smodel!r}")
+    if not r.failures:
+        # the thing the mapping was built from, and every copy taken of it on the way, are objects of their own:
+        # what happened to the mapping since has not reached them ...
+        for k, p in after():
+            r.fail(f"C17:ctor-aliasing:{form}:{k}", f"{p}; history {ops!r} from {form}:{init!r}")
+        for snap, smodel in snapshots:
+            for k, p in views_problems(snap, smodel, keys):
+                r.fail(f"C17:snapshot-aliasing:{k}", f"copy taken earlier changed: {p}; history {ops!r} from {form}:{init!r}")
+        # ... and what happens to a copy does not reach the mapping
+        if snapshots and not r.failures:
+            for snap, smodel in snapshots:
+                snap.append("snap-only", 1)
+                for k in m_keys(smodel)[:1]:
+                    del snap[k]
+            for k, p in views_problems(m, model, list(keys) + ["snap-only"]):
+                r.fail(f"C17:snapshot-aliasing:reverse:{k}", f"changing a copy changed the mapping: {p}; history {ops!r} from {form}:{init!r}")
     r.nontrivial = multi_seen
     n = len(ops)
     r.label("len=" + (str(n) if n <= 3 else "4-8" if n <= 8 else "9-20" if n <= 20 else "21-50"), f"form={form}")
@@ -281,42 +455,52 @@ def oracle_query(case) -> Result:
     from urllib.parse import quote_plus
 
     r = Result()
-    pairs = [tuple(p) for p in case["pairs"]]
+    pairs = [(p[0], dv(p[1])) for p in case["pairs"]]
+    text = all(isinstance(v, str) for _, v in pairs)
     keys = m_keys(pairs) + ["__absent__"]
-    for cls in (QueryParams, FormData, MultiMapping):
-        m = cls(list(pairs))
-        if m.multi_items() != pairs:
-            r.fail(f"C17:{cls.__name__}:multi_items", f"{m.multi_items()!r} != {pairs!r}")
-        for k in keys:
-            vals = m_values(pairs, k)
-            if m.getlist(k) != vals:
-                r.fail(f"C17:{cls.__name__}:getlist", f"getlist({k!r}) {m.getlist(k)!r} != {vals!r}")
-            got = call(lambda: m[k])
-            if got != (("ok", vals[-1]) if vals else ("KeyError", None)):
-                r.fail(f"C17:{cls.__name__}:getitem", f"m[{k!r}] -> {got!r}, values {vals!r}")
-            if (k in m) != bool(vals):
-                r.fail(f"C17:{cls.__name__}:contains", f"{k!r} in m")
-        if set(m.keys()) != set(m_keys(pairs)) or len(m) != len(m_keys(pairs)):
-            r.fail(f"C17:{cls.__name__}:keys", f"keys {list(m.keys())!r} len {len(m)} for {pairs!r}")
-        if not (m == cls(list(pairs))):
-            r.fail(f"C17:{cls.__name__}:eq", f"not equal to a twin built from {pairs!r}")
-    q = QueryParams(list(pairs))
-    s = str(q)
-    back = QueryParams(s)
-    if not (back == q) or not (q == back):
-        r.fail("C17:query-roundtrip:eq", f"QueryParams(str(q)) != q for {pairs!r}; str = {s!r}")
-    if back.multi_items() != pairs:
-        r.fail("C17:query-roundtrip:items", f"QueryParams({s!r}).multi_items() = {back.multi_items()!r}, original {pairs!r}")
-    try:
-        sb = s.encode("latin-1")
-    except UnicodeEncodeError:
-        r.fail("C17:query-str-not-ascii", f"str(q) = {s!r}")
+    for cls in (QueryParams, FormData, MultiMapping, MutableMultiMapping):
+        if cls is QueryParams and not text:
+            continue
+        built = [("pairs", cls(list(pairs)))]
+        if case.get("forms"):
+            built.append(("iter", cls(iter(list(pairs)))))
+            built.append(("multi", cls(MultiMapping(list(pairs)))))
+            built.append(("form", cls(FormData(list(pairs)))))
+            built.append(("mutable", cls(MutableMultiMapping(list(pairs)))))
+            if text:
+                built.append(("query", cls(QueryParams(list(pairs)))))
+        for how, m in built:
+            for k, p in ro_views_problems(m, pairs, keys):
+                r.fail(f"C17:{cls.__name__}:{k}", f"{cls.__name__} built from {how}: {p}")
+            twin = cls(list(pairs))
+            if not (m == twin) or not (twin == m) or (m != twin):
+                r.fail(f"C17:{cls.__name__}:eq", f"({how}) not equal to a twin built from {pairs!r}")
+        if case.get("forms"):
+            d = dict(pairs)
+            for how, m in (("dict", cls(d)), ("mappingproxy", cls(types.MappingProxyType(d))), ("userdict", cls(collections.UserDict(d)))):
+                for k, p in ro_views_problems(m, list(d.items()), keys):
+                    r.fail(f"C17:{cls.__name__}:{k}", f"{cls.__name__} built from {how}: {p}")
+    special = repeated = False
+    if text:
+        q = QueryParams(list(pairs))
+        s = str(q)
+        back = QueryParams(s)
+        if not (back == q) or not (q == back) or (q != back):
+            r.fail("C17:query-roundtrip:eq", f"QueryParams(str(q)) != q for {pairs!r}; str = {s!r}")
+        if back.multi_items() != pairs:
+            r.fail("C17:query-roundtrip:items", f"QueryParams({s!r}).multi_items() = {back.multi_items()!r}, original {pairs!r}")
+        try:
+            sb = s.encode("latin-1")
+        except UnicodeEncodeError:
+            r.fail("C17:query-str-not-ascii", f"str(q) = {s!r}")
+        else:
+            if QueryParams(sb).multi_items() != pairs:
+                r.fail("C17:query-roundtrip:bytes", f"QueryParams({sb!r}).multi_items() differs from {pairs!r}")
+        if QueryParams(q).multi_items() != pairs or QueryParams(dict(pairs)).multi_items() != list(dict(pairs).items()):
+            r.fail("C17:query-ctor", f"constructor forms disagree for {pairs!r}")
+        special = any(quote_plus(k) != k or quote_plus(v) != v for k, v in pairs)
     else:
-        if QueryParams(sb).multi_items() != pairs:
-            r.fail("C17:query-roundtrip:bytes", f"QueryParams({sb!r}).multi_items() differs from {pairs!r}")
-    if QueryParams(q).multi_items() != pairs or QueryParams(dict(pairs)).multi_items() != list(dict(pairs).items()):
-        r.fail("C17:query-ctor", f"constructor forms disagree for {pairs!r}")
-    special = any(quote_plus(k) != k or quote_plus(v) != v for k, v in pairs)
+        r.label("object-values")
     repeated = len(m_keys(pairs)) < len(pairs)
     r.nontrivial = special or repeated
     if special:
@@ -327,7 +511,98 @@ def oracle_query(case) -> Result:
     return r
 
 
-SUBS = {"exh": oracle, "long": oracle, "query": oracle_query}
+def bulk_pairs(case):
+    n, kmod = case["n"], case["kmod"]
+    return [(f"k{i % kmod if kmod else i}", f"v{i}") for i in range(n)]
+
+
+def oracle_qbulk(case) -> Result:
+    """Large mappings: nothing in the statement bounds the number of pairs."""
+    r = Result()
+    pairs = bulk_pairs(case)
+    distinct = m_keys(pairs[: max(case["kmod"], 1)]) if case["kmod"] else [k for k, _ in pairs]
+    probes = [distinct[0], distinct[len(distinct) // 2], distinct[-1], "__absent__"]
+    for cls in (QueryParams, FormData, MultiMapping, MutableMultiMapping):
+        m = cls(list(pairs))
+        if m.multi_items() != pairs:
+            r.fail(f"C17:bulk:{cls.__name__}:multi_items", f"{len(m.multi_items())} items for {len(pairs)} pairs")
+        if len(m) != len(distinct) or set(m.keys()) != set(distinct):
+            r.fail(f"C17:bulk:{cls.__name__}:keys", f"len {len(m)}, {len(distinct)} distinct keys")
+        for k in probes:
+            vals = m_values(pairs, k)
+            if m.getlist(k) != vals or (k in m) != bool(vals) or m.get(k, _MISSING) != (vals[-1] if vals else _MISSING):
+                r.fail(f"C17:bulk:{cls.__name__}:views", f"views of {k!r} in a mapping of {len(pairs)} pairs")
+    q = QueryParams(list(pairs))
+    s = str(q)
+    back = QueryParams(s)
+    if back.multi_items() != pairs:
+        r.fail("C17:bulk:query-roundtrip:items", f"QueryParams(str(q)) has {len(back.multi_items())} items, q has {len(pairs)} (n={case['n']}, kmod={case['kmod']})")
+    if not (back == q) or not (q == back):
+        r.fail("C17:bulk:query-roundtrip:eq", f"QueryParams(str(q)) != q for {len(pairs)} pairs")
+    if QueryParams(s.encode("latin-1")).multi_items() != pairs:
+        r.fail("C17:bulk:query-roundtrip:bytes", f"bytes form differs for {len(pairs)} pairs")
+    mm = MutableMultiMapping(list(pairs))
+    model = list(pairs)
+    k = probes[1]
+    mm[k] = "new"
+    m_assign(model, k, "new")
+    mm.append(probes[0], "more")
+    model.append((probes[0], "more"))
+    del mm[probes[2]]
+    m_remove(model, probes[2])
+    if mm.multi_items() != model or len(mm) != len({kk for kk, _ in model}):
+        r.fail("C17:bulk:mutable", f"assign / append / delete on a mapping of {len(pairs)} pairs")
+    r.nontrivial = True
+    r.label(f"n={case['n']}", f"kmod={case['kmod']}")
+    return r
+
+
+def oracle_qraw(case) -> Result:
+    """A query mapping born from a raw query string.  What the pairs of a given raw string are is not
+    C17's business; that the mapping's views agree with its own item list and that it survives its own
+    string form is."""
+    r = Result()
+    raw = case["raw"]
+    q = QueryParams(raw)
+    items = q.multi_items()
+    if not all(isinstance(k, str) and isinstance(v, str) for k, v in items):
+        r.fail("C17:qraw:types", f"QueryParams({raw!r}).multi_items() = {items!r}")
+        return r
+    for k, p in ro_views_problems(q, items, m_keys(items) + ["__absent__"]):
+        r.fail(f"C17:qraw:{k}", f"QueryParams({raw!r}): {p}")
+    s = str(q)
+    back = QueryParams(s)
+    if back.multi_items() != items:
+        r.fail("C17:qraw:roundtrip:items", f"q = QueryParams({raw!r}) has {items!r}; QueryParams(str(q) = {s!r}) has {back.multi_items()!r}")
+    if not (back == q) or not (q == back) or (q != back):
+        r.fail("C17:qraw:roundtrip:eq", f"q = QueryParams({raw!r}); QueryParams(str(q) = {s!r}) != q")
+    try:
+        sb = s.encode("ascii")
+    except UnicodeEncodeError:
+        r.fail("C17:query-str-not-ascii", f"str(QueryParams({raw!r})) = {s!r}")
+    else:
+        if QueryParams(sb).multi_items() != items:
+            r.fail("C17:qraw:roundtrip:bytes", f"QueryParams({sb!r}) differs from QueryParams({s!r})")
+    for cls in (FormData, MutableMultiMapping):
+        for k, p in ro_views_problems(cls(q), items, m_keys(items)[:3] + ["__absent__"]):
+            r.fail(f"C17:qraw:{cls.__name__}:{k}", f"{cls.__name__}(QueryParams({raw!r})): {p}")
+    r.nontrivial = s != raw
+    r.label("canonical" if s == raw else "non-canonical", f"pairs={min(len(items), 5)}")
+    if len(m_keys(items)) < len(items):
+        r.label("repeated-key")
+    return r
+
+
+SUBS = {
+    "exh": oracle,
+    "long": oracle,
+    "query": oracle_query,
+    "alph": oracle,
+    "deep": oracle,
+    "qexh": oracle_query,
+    "qbulk": oracle_qbulk,
+    "qraw": oracle_qraw,
+}
 
 # ------------------------------------------------------------------------------------------
 # enumeration / generation
@@ -363,11 +638,43 @@ def concrete_ops(keys, vals):
     return ops
 
 
+def extra_ops(keys, vals):
+    """Further call forms of the same operations (used by `alph` and `deep`; `exh` keeps its own budget)."""
+    a, b = keys[0], keys[1]
+    v, w = vals[0], vals[1]
+    return [
+        ["popn", a],
+        ["popn", b],
+        ["setdefault0", a],
+        ["setdefault0", b],
+        ["update_dict_kw", [[a, v]], [[b, w]]],
+        ["update_dict_kw", [[b, w], [a, w]], [["other", v]]],
+        ["update_kw", [["other", w]]],
+        ["update_kw", [["self", v], [b, v]]],
+        ["update_iter", [[b, v], [a, w], [b, w]]],
+        ["update_self"],
+        ["update_none"],
+        ["setlist", a, [v, w], "tuple"],
+        ["setlist", b, [w], "tuple"],
+    ]
+
+
 def initial_lists(keys, vals, maxlen):
     pairs = [[k, v] for k in keys for v in vals]
     for n in range(maxlen + 1):
         for combo in itertools.product(pairs, repeat=n):
             yield [list(p) for p in combo]
+
+
+def _emit(rec, sub, g, case, key):
+    res = g(case)
+    res.key = key
+    rec.count(sub, case, res)
+    new, old = rec.split(res)
+    rec.note_known(old)
+    for f in new:
+        rec.add_violation(sub, f, case)
+        rec.skip.add(f.bucket)
 
 
 def exh_shard(rec, k, nshards, maxlen):
@@ -388,18 +695,87 @@ def exh_shard(rec, k, nshards, maxlen):
                     forms.append("iter")
                 for form in forms:
                     case = {"form": form, "init": init, "ops": list(seq), "keys": K2 + ["c"]}
-                    res = g(case)
-                    res.key = (form, repr(init), repr(seq))
-                    rec.count("exh", case, res)
-                    new, old = rec.split(res)
-                    rec.note_known(old)
-                    for f in new:
-                        rec.add_violation("exh", f, case)
-                        rec.skip.add(f.bucket)
+                    _emit(rec, "exh", g, case, (form, repr(init), repr(seq)))
+
+
+# key / value alphabets of `alph`: (name, two keys, an absent key, two values)
+ALPHABETS = [
+    ("fresh-str", ["key-a", "key-b"], "key-c", [1, 2]),
+    ("big-int", [1000, 2000], 3000, ["x", "y"]),
+    ("num-equal", [1, 1.0], 0, [1, 2]),  # one key under two spellings
+    ("falsy-keys", ["", None], 0, [1, 2]),
+    ("tuple-keys", [[1, 2], []], [1], [1, 2]),
+    ("none-values", ["ka", "kb"], "kc", [None, 1]),
+    ("falsy-values", ["ka", "kb"], "kc", [0, ""]),
+    ("false-none", ["ka", "kb"], "kc", [False, None]),
+    ("unhashable-values", ["ka", "kb"], "kc", [[1], {"k": 1}]),
+    ("object-values", ["ka", "kb"], "kc", [{"$obj": 0}, {"$obj": 1}]),
+    ("unorderable-values", ["ka", "kb"], "kc", [1, "1"]),
+]
+
+
+ALPH_QUICK_PAIRS = {"fresh-str", "num-equal", "none-values", "falsy-values", "unhashable-values", "object-values"}  # length-2 sequences in the quick tier
+
+
+def alph_shard(rec, k, nshards, thorough):
+    g = core.guarded(oracle)
+    i = 0
+    for name, keys, absent, vals in ALPHABETS:
+        ops = concrete_ops(keys, vals) + extra_ops(keys, vals)
+        probes = keys + [absent, "other"]
+        a, b = keys
+        v, w = vals
+        if thorough:
+            inits1 = list(initial_lists(keys, vals, 3))
+            inits2 = [[], [[a, v], [b, w], [a, w]], [[a, v]], [[a, w], [a, v]], [[b, v], [a, v], [a, w], [b, w]]]
+        else:
+            inits1 = list(initial_lists(keys, vals, 2)) + [
+                [[k1, x], [k2, y], [k1, z]] for k1, k2 in ((a, b), (b, a), (a, a)) for x, y, z in ((v, v, w), (w, v, v), (v, w, v))
+            ]
+            inits2 = [[[a, v], [b, w], [a, w]]] if name in ALPH_QUICK_PAIRS else []
+        for n, inits in ((0, inits1), (1, inits1), (2, inits2)):
+            for seq in itertools.product(ops, repeat=n):
+                for init in inits:
+                    i += 1
+                    if i % nshards != k:
+                        continue
+                    form = FORMS[i % len(FORMS)] if init else ("none", "pairs", "iter", "mut", "dict")[i % 5]
+                    case = {"form": form, "init": init, "ops": list(seq), "keys": probes}
+                    _emit(rec, "alph", g, case, (name, form, repr(init), repr(seq)))
+
+
+def deep_inits(maxlen):
+    for n in range(3, maxlen + 1):
+        for pat in itertools.product(K2, repeat=n):
+            yield [[kk, i + 1] for i, kk in enumerate(pat)]
+            yield [[kk, 1] for kk in pat]
+    # three keys, every key's values apart from each other
+    yield [["a", 1], ["b", 2], ["c", 3], ["a", 4], ["b", 5], ["c", 6], ["a", 7]]
+    yield [["c", 1], ["a", 1], ["a", 2], ["b", 1], ["a", 3], ["c", 2], ["b", 1], ["a", 2]]
+
+
+def deep_shard(rec, k, nshards, thorough):
+    g = core.guarded(oracle)
+    ops = concrete_ops(K2, [1, 9]) + extra_ops(K2, [1, 9]) + [["del", "c"], ["set", "c", 9], ["setlist", "c", [9]], ["poplist", "c"]]
+    i = 0
+    for init in deep_inits(6 if thorough else 5):
+        for n in (0, 1, 2):
+            if n == 2 and not (thorough and len(init) <= 3):
+                continue
+            for seq in itertools.product(ops, repeat=n):
+                i += 1
+                if i % nshards != k:
+                    continue
+                forms = ["pairs", FORMS[1 + i % (len(FORMS) - 1)]]
+                for form in forms:
+                    if form in _MAP_SOURCES:
+                        continue  # a dict source cannot hold a key twice
+                    case = {"form": form, "init": init, "ops": list(seq), "keys": K2 + ["c", "d"]}
+                    _emit(rec, "deep", g, case, (form, repr(init), repr(seq)))
 
 
 K4 = ["a", "b", "c", "d"]
-V4 = [0, 1, "x", ""]
+V4 = [0, 1, "x", "", None]
 
 
 def long_case():
@@ -424,10 +800,16 @@ def long_case():
         st.tuples(st.just("update_pairs"), st.lists(pair, max_size=4)),
         st.tuples(st.just("update_multi"), st.lists(pair, max_size=4)),
         st.tuples(st.just("update_kw"), st.lists(pair, max_size=2)),
+        st.tuples(st.just("popn"), key),
+        st.tuples(st.just("setdefault0"), key),
+        st.tuples(st.just("update_iter"), st.lists(pair, max_size=4)),
+        st.tuples(st.just("update_dict_kw"), st.lists(pair, max_size=2), st.lists(pair, max_size=2)),
+        st.tuples(st.just("update_self")),
+        st.tuples(st.just("setlist"), key, st.lists(val, max_size=3), st.just("tuple")),
     ).map(list)
     return st.fixed_dictionaries(
         {
-            "form": st.sampled_from(["none", "pairs", "iter", "dict", "multi"]),
+            "form": st.sampled_from(["none", "pairs", "iter", "dict", "multi"] + FORMS),
             "init": st.lists(pair, max_size=6),
             "ops": st.one_of(st.lists(op, max_size=8), st.lists(op, min_size=12, max_size=50)),
             "keys": st.just(K4 + ["zz"]),
@@ -442,16 +824,91 @@ _qtext = st.one_of(
 
 
 def query_case():
-    return st.fixed_dictionaries({"pairs": st.lists(st.tuples(_qtext, _qtext).map(list), max_size=8)})
+    return st.fixed_dictionaries({"pairs": st.lists(st.tuples(_qtext, _qtext).map(list), max_size=8), "forms": st.integers(0, 7).map(lambda n: n == 0)})
+
+
+QSPECIAL = ["", "a", " ", "&", "=", "+", "%", "%26", "%zz", ";", "#", "a=b&c", "é", "中", "\x00", "\n", "?", "a b+c"]
+QCORE = ["", "a", "&", "=", "+", "%"]
+
+
+def qexh_cases(thorough):
+    cps = list(range(0x180 if not thorough else 0x3000)) + [0x3B1, 0x4E2D, 0x2028, 0xFEFF, 0xFFFD, 0xFFFF, 0x10000, 0x1F600, 0x10FFFF]
+    for cp in cps:
+        if 0xD800 <= cp <= 0xDFFF:
+            continue
+        c = chr(cp)
+        yield {"pairs": [[c, "v"]]}
+        yield {"pairs": [["k", c]]}
+        yield {"pairs": [[c, c], ["k" + c, c + "v"], [c, ""]]}
+    for kk in QSPECIAL:
+        for vv in QSPECIAL:
+            yield {"pairs": [[kk, vv]], "forms": True}
+    core_pairs = [[kk, vv] for kk in QCORE for vv in QCORE]
+    for p1 in core_pairs:
+        for p2 in core_pairs:
+            yield {"pairs": [p1, p2]}
+    for combo in itertools.product([[kk, vv] for kk in ("", "a") for vv in ("", "a")], repeat=3):
+        yield {"pairs": [list(p) for p in combo], "forms": True}
+    # form mappings: upload files are values with identity equality only, possibly several under one name
+    o0, o1 = {"$obj": 0}, {"$obj": 1}
+    for pairs in (
+        [["f", o0]],
+        [["f", o0], ["f", o1]],
+        [["f", o0], ["f", o0]],
+        [["f", o1], ["t", "text"], ["f", o0]],
+        [["t", "text"], ["f", o0], ["t", ""], ["g", o0], ["f", "text"]],
+        [["f", [1]], ["f", {"k": 1}], ["g", None], ["f", None]],
+    ):
+        yield {"pairs": pairs, "forms": True}
+
+
+def qbulk_cases(thorough):
+    for n in (1001, 2000) + ((3000, 5000) if thorough else ()):
+        for kmod in (0, 7, 1):
+            yield {"n": n, "kmod": kmod}
+
+
+QRAW = [
+    "", "a", "a=", "=a", "=", "&", "&&", "a&b", "a=1&a=2", "a=1&&b=2", "&a=1", "a=1&", "a=b=c", "a==", "==", "%", "%zz", "%2", "a=%",
+    "%26=%3D", "%26%3D", "a+b=c+d", "a%20b=c%20d", "+", "+=+", "a=1;b=2", ";", "a;b", "?a=1", "#", "a=1#frag", "\xe9=\xfc",
+    "%E9", "%C3%A9", "%c3%a9=%C3%A9", "a=%00", "a=\x00", "\n", "a=1\n&b=2", " a = b ", "a=1&A=2", "%u1234", "a=%41%41%41", "&=&", "=&=",
+    "a&a&a", "a=&a=&a=", "中=文", "a[]=1&a[]=2", "a[0]=1", "a.b=c", "a=1&b", "b&a=1", "%ED%A0%80=x", "%F0%9F%98%80", "a=%F0%9F",
+    "a=1,2", "a=/path/../x", "a=http://h/?b=c&d=e", "a=~", "a=*", "a=%7E", "a=%2B", "a=%2b", "a=%25", "a=%2526", "\t", "a\t=\tb",
+]
+
+_qraw_seg = st.one_of(
+    st.sampled_from(["", "a", "b", "a=", "a=1", "b=", "=", "=1", "a=1=2", "%", "a=%", "%41=%42", "a=%zz", "+", "a+=+b", "a;b=1", "\xe9=1"]),
+    st.text(alphabet=st.sampled_from(list("aab==%%++;# 012AFf\xe9中")), max_size=8),
+)
+_qraw_text = st.lists(_qraw_seg, max_size=6).map("&".join)
+
+
+def qraw_case():
+    return st.fixed_dictionaries({"raw": _qraw_text})
+
+
+def _want(only, sub):
+    return only is None or sub in only
 
 
 def run(rec, only=None):
     quick = rec.tier == "quick"
-    if quick:
-        core.run_sharded(rec, exh_shard, 8, min(8, core.ncpu()), (2,))
-    else:
-        core.run_sharded(rec, exh_shard, 64, core.ncpu(), (3,))
-    rec.exhaustive["exh"] = True
+    procs = core.ncpu()
+    if _want(only, "exh"):
+        if quick:
+            core.run_sharded(rec, exh_shard, 8, min(8, procs), (2,))
+        else:
+            core.run_sharded(rec, exh_shard, 64, procs, (3,))
+    if _want(only, "alph"):
+        core.run_sharded(rec, alph_shard, 16 if quick else 64, min(16, procs) if quick else procs, (not quick,))
+    if _want(only, "deep"):
+        core.run_sharded(rec, deep_shard, 8 if quick else 64, min(8, procs) if quick else procs, (not quick,))
+    rec.exhaustive["exh"] = rec.exhaustive["alph"] = rec.exhaustive["deep"] = True
     core.drive_hypothesis(rec, "long", long_case(), oracle, 1500 if quick else 30000)
     core.drive_hypothesis(rec, "query", query_case(), oracle_query, 1500 if quick else 30000, seed_offset=3)
-    rec.exhaustive["long"] = rec.exhaustive["query"] = False
+    core.drive_cases(rec, "qexh", qexh_cases(not quick), oracle_query)
+    core.drive_cases(rec, "qbulk", qbulk_cases(not quick), oracle_qbulk)
+    core.drive_cases(rec, "qraw", ({"raw": s} for s in QRAW), oracle_qraw)
+    core.drive_hypothesis(rec, "qraw", qraw_case(), oracle_qraw, 600 if quick else 20000, seed_offset=7)
+    rec.exhaustive["qexh"] = True
+    rec.exhaustive["long"] = rec.exhaustive["query"] = rec.exhaustive["qbulk"] = rec.exhaustive["qraw"] = False
